@@ -272,7 +272,21 @@ def c11_5(ctx):
     defs = [n for n in walk_no_nested(fac.node) if isinstance(n, ast.Assign) and unparse(n.targets[0]) == 'values_list' and 'split' in unparse(n.value)]
     ok = len(defs) == 1 and isinstance(defs[0].value, ast.ListComp) and unparse(defs[0].value.elt) == f'{unparse(defs[0].value.generators[0].target)}.strip()' \
         and "group(4)" in unparse(defs[0].value.generators[0].iter) and "split(',')" in unparse(defs[0].value.generators[0].iter)
-    ctx.check(ok, 'items:kept-as-text', fac.site(defs[0]) if defs else fac.site(), 'the listed values are kept as (stripped) expression text, one item per comma', '; '.join(unparse(d) for d in defs))
+    if not ok and not defs:
+        # the same list built by a loop: one append per comma-separated piece, of the stripped piece, unless it is empty
+        loops = [l for l in walk_no_nested(fac.node) if isinstance(l, ast.For) and 'group(4)' in unparse(l.iter) and "split(',')" in unparse(l.iter)]
+        if len(loops) == 1:
+            lp = loops[0]
+            apps = [c for c in ast.walk(lp) if isinstance(c, ast.Call) and isinstance(c.func, ast.Attribute) and c.func.attr == 'append' and unparse(c.func.value) == 'values_list']
+            tv = unparse(lp.target)
+            if len(apps) == 1 and isinstance(lp.target, ast.Name):
+                e = apps[0].args[0]
+                # `item = item.strip()` first: the appended name is the stripped piece
+                rebinds = [n for n in walk_no_nested(lp) if isinstance(n, ast.Assign) and unparse(n.targets[0]) == unparse(e)]
+                val = unparse(rebinds[0].value) if len(rebinds) == 1 and isinstance(e, ast.Name) else unparse(e)
+                ok = val == f'{tv}.strip()'
+                defs = [lp]
+    ctx.check(ok, 'items:kept-as-text', fac.site(defs[0]) if defs else fac.site(), 'the listed values are kept as (stripped) expression text, one item per comma', '; '.join(unparse(d)[:160] for d in defs))
     gb = ctx.repo.func(DL + '.generate_bytes')
     res = resolver(ctx, gb, inline=False)
     pe = [c for c in ast.walk(gb.node) if isinstance(c, ast.Call) and unparse(c.func) == 'parse_expression']
